@@ -263,6 +263,7 @@ def gen_history(rng, n_steps=8, timers=False, faults=True, p_good=0.85, reaction
                   autopong=rng.random() < 0.85)
     sc.key_seed = key_seed
     sc.zero = rng.random() < 0.3
+    sc.tdiv = rng.choice([1, 1, 4, 8]) if timers else 1      # times in whole, quarter or eighth seconds
     hs, kind = handshake_variant(rng, sc, p_good)
     pieces = [hs]
     for _ in range(n_steps):
